@@ -698,6 +698,10 @@ type Store struct {
 
 	cancel     context.CancelFunc
 	PutLoopEnd chan struct{}
+
+	relMu   sync.Mutex
+	relTask *Task
+	relReq  chan *Task
 }
 
 // Build assembles a store on the given media. For persistent stores the state
@@ -911,6 +915,40 @@ func (t *Task) WaitRelease() {
 	}
 }
 
+// RunReleaseUntilParked is RunUntilParked for a release round: it also returns
+// "" when the round turned out to have nothing to do (see WaitRelease).
+func (t *Task) RunReleaseUntilParked(points ...string) string {
+	idle := 0
+	for spin := 0; ; spin++ {
+		if t.Finished() {
+			return ""
+		}
+		for _, p := range points {
+			if t.s.Gate.Waiting(p) > 0 {
+				return p
+			}
+		}
+		if d, ok := t.s.M.Clock.NextFire(); ok {
+			t.s.M.Clock.Advance(d)
+			idle = 0
+			continue
+		}
+		if !t.s.ReleasePending() {
+			idle++
+			if idle > 50 {
+				return ""
+			}
+		} else {
+			idle = 0
+		}
+		if spin%16 == 15 {
+			time.Sleep(20 * time.Microsecond)
+		} else {
+			yield()
+		}
+	}
+}
+
 // Wait runs the task to completion (all gates must be open).
 func (t *Task) Wait() { t.RunUntilParked() }
 
@@ -938,13 +976,29 @@ func (s *Store) StartPutLoop(ctx context.Context) *Task {
 	return t
 }
 
-// StartReleaseRound starts one ProcessBlockRelease round in a goroutine.
+// StartReleaseRound asks the store's single release goroutine (production has
+// exactly one release loop) to perform one ProcessBlockRelease round. If the
+// previous round is still outstanding - it may have found nothing to do and be
+// parked on the wake-up channel, like the production loop - that round's task
+// is returned instead of starting a second one.
 func (s *Store) StartReleaseRound() *Task {
+	s.relMu.Lock()
+	defer s.relMu.Unlock()
+	if s.relTask != nil && !s.relTask.Finished() {
+		return s.relTask
+	}
 	t := &Task{Done: make(chan struct{}), s: s}
-	go func() {
-		s.Syncer.ProcessBlockRelease()
-		close(t.Done)
-	}()
+	s.relTask = t
+	if s.relReq == nil {
+		s.relReq = make(chan *Task, 1)
+		go func() {
+			for req := range s.relReq {
+				s.Syncer.ProcessBlockRelease()
+				close(req.Done)
+			}
+		}()
+	}
+	s.relReq <- t
 	return t
 }
 
